@@ -415,8 +415,16 @@ impl<'a> From<Piece<'a>> for Chunk {
                     };
 
                     // an invalid directive would make the `Display` of the formatted date fail at
-                    // encode time, which `write!` turns into a panic
-                    if StrftimeItems::new(&format).any(|item| matches!(item, Item::Error)) {
+                    // encode time, which `write!` turns into a panic; some directives parse but can
+                    // only be used for parsing (`%#z`), so format a date once to be sure
+                    let mut probe = String::new();
+                    if StrftimeItems::new(&format).any(|item| matches!(item, Item::Error))
+                        || std::fmt::Write::write_fmt(
+                            &mut probe,
+                            format_args!("{}", Utc::now().format(&format)),
+                        )
+                        .is_err()
+                    {
                         return Chunk::Error(format!("invalid date format `{}`", format));
                     }
 
